@@ -17,7 +17,7 @@ PURE = (
     "::as_secs", "::subsec_nanos", "::starts_with", "::ends_with", "::is_valid", "::has_column",
     "::index_for_column_name", "::encode_utf16", "::is_stream", "::exists", "::long_string_refs",
     "::is_modified", "::codepage", "Option::<T>::take", "::parse_str", "::get_column", "::eq", "::ne", "::to_string", "precedence", "::id", "::width", "::get", "::precedence", "::is_char_boundary",
-    "::checked_sub", "::checked_add",
+    "::checked_sub", "::checked_add", "::is_ascii",
 )
 
 
